@@ -141,6 +141,13 @@ where
     embed_word(&cells, k, &case.embed, &mut idx);
     let pssm = build_pssm::<A>(&case.mat);
     let dm: DiscreteMatrix<A> = pssm.to_discrete();
+    // the conversion traits are the same discretisation
+    for (name, other) in [("From<&ScoringMatrix>", DiscreteMatrix::<A>::from(&pssm)), ("From<ScoringMatrix>", DiscreteMatrix::<A>::from(pssm.clone()))] {
+        let cells_differ = (0..m).any(|i| other.matrix()[i][..] != dm.matrix()[i][..]);
+        if other.matrix().rows() != dm.matrix().rows() || cells_differ || other.scale(1.5) != dm.scale(1.5) || other.unscale(7).to_bits() != dm.unscale(7).to_bits() {
+            return (Some(Failure::new(format!("DiscreteMatrix::{}", name), "differs from to_discrete()".to_string())), 0);
+        }
+    }
     let symbols = syms::<A>(&idx);
     let mut striped: StripedSequence<A, U32> = Pipeline::<A, _>::generic().stripe(&symbols);
     striped.configure_wrap(m - 1 + case.extra_wrap);
